@@ -161,7 +161,7 @@ def build_props(pid, thorough=False, log=None):
     Returns dict(ok, theorems, axioms, out, checker_cmd).  Quick: the dependency cone is brought
     up to date with make (unchanged files are not rebuilt) and the Props file itself is always
     recompiled; thorough: every .vo the Props file depends on is deleted first, so that each
-    lemma is re-checked from source; coqchk -o is run on the result when VERIF_COQCHK_TIMEOUT=<seconds> is set.
+    lemma is re-checked from source and coqchk -o is run on the result in a time slot (VERIF_COQCHK_TIMEOUT, default 240 s).
     """
     rel = 'Props/%s.v' % pid
     path = os.path.join(COQ, rel)
@@ -214,12 +214,15 @@ def build_props(pid, thorough=False, log=None):
                n_print_assumptions=npa, closed=closed)
     bad_ax = [a for a in axioms if a not in STD_AXIOMS_OK and not a.startswith(('Uint63.', 'PrimFloat.', 'FloatAxioms.', 'PrimInt63.', 'Sint63.'))]
     res['unexpected_axioms'] = bad_ax
-    if thorough and ok and not os.environ.get('VERIF_COQCHK_TIMEOUT'):
-        # coqchk re-checks Coquelicot, Interval, Flocq and every nsatz / field certificate from scratch: 25 min for the
-        # smallest Props file, more than 50 for most.  It is therefore run on request only (VERIF_COQCHK_TIMEOUT=<seconds>).
+    slot = int(os.environ.get('VERIF_COQCHK_TIMEOUT', '240'))
+    if thorough and ok and slot <= 0:
         res['coqchk_skipped'] = True
-    if thorough and ok and os.environ.get('VERIF_COQCHK_TIMEOUT'):
-        chk = 'flock /tmp/pv_coqchk.lock timeout %d coqchk -silent -o -R %s PV PV.Props.%s' % (int(os.environ.get('VERIF_COQCHK_TIMEOUT', '900')), COQ, pid)
+    if thorough and ok and slot > 0:
+        # coqchk re-checks every library the Props file loads.  It finishes within 1-2 minutes for the Props files whose
+        # proofs do not rest on large vm_compute / interval computations (measured: C06 C07 C10 C11 C13 C14 C15 C17 C18 C20)
+        # and needs 25 to 60+ minutes for the others (it re-evaluates those computations with its own slow reduction):
+        # default slot 240 s, VERIF_COQCHK_TIMEOUT=<seconds> changes it, 0 switches it off.
+        chk = 'flock /tmp/pv_coqchk.lock timeout %d coqchk -silent -o -R %s PV PV.Props.%s' % (slot, COQ, pid)
         p2 = subprocess.run(chk, shell=True, stdout=subprocess.PIPE, stderr=subprocess.STDOUT, text=True)
         res['coqchk_rc'] = p2.returncode
         res['coqchk_tail'] = p2.stdout[-3000:]
@@ -228,9 +231,13 @@ def build_props(pid, thorough=False, log=None):
             # the independent re-check did not finish in its time slot (it re-checks Coquelicot, Interval and every
             # nsatz / field certificate from scratch): recorded, not a verdict on the proofs coqc has accepted
             res['coqchk_timed_out'] = True
-        elif p2.returncode != 0:
+        elif p2.returncode == 1:
+            # coqchk's own error status (a library it cannot load or a term it rejects)
             res['ok'] = False
             res['out'] += '\n[coqchk]\n' + p2.stdout[-3000:]
+        elif p2.returncode != 0:
+            # killed or aborted (out of memory: 134, signals): a resource failure of the re-check, recorded, not a verdict
+            res['coqchk_timed_out'] = True
     return res
 
 
@@ -396,7 +403,7 @@ def finish(ctx, proofs, level_text=''):
         rule=getattr(ctx, 'rule', ''), samples=ctx.samples or ['(none)'],
         traces_validated_against_impl=ctx.traces, branch_histogram=ctx.hist,
         model_impl_mismatches=len(ctx.mismatches), known_findings_reproduced=sorted(ctx.known_hit),
-        notes=ctx.notes + (['coqchk -o not run (it needs 25 to 60+ minutes per Props file; set VERIF_COQCHK_TIMEOUT=<seconds> to run it)']
+        notes=ctx.notes + (['coqchk -o not run (VERIF_COQCHK_TIMEOUT=0)']
                            if proofs.get('coqchk_skipped') else []) + ([('coqchk -o (independent re-check of the compiled proofs): ' +
                              ('did not finish within its time slot' if proofs.get('coqchk_timed_out') else 'exit status %s' % proofs.get('coqchk_rc')))]
                            if 'coqchk_rc' in proofs else []),
